@@ -249,12 +249,17 @@ def gen_scenario(rnd, n_events=None, fault_p=0.08):
         else:
             ev.append(["hello", c])
         live.append(c)
-    owned = {}
+    owned = {}              # name -> queue of connections (first = primary owner)
     for name in WK_NAMES:
         if rnd.random() < 0.4:
             c = rnd.choice(live)
             ev.append(["own", c, name])
-            owned[name] = c
+            owned[name] = [c]
+            if rnd.random() < 0.3:
+                c2 = rnd.choice(live)
+                if c2 != c:
+                    ev.append(["own", c2, name])          # queued behind c
+                    owned[name].append(c2)
     added = {c: [] for c in range(0, 8)}
     items_of = {}
     nxt = nconn + 1
@@ -294,12 +299,15 @@ def gen_scenario(rnd, n_events=None, fault_p=0.08):
             if c in fdcap and rnd.random() < 0.3:
                 msg[5] = add_fds(rnd, msg[5])
             ev.append(["send", c] + msg)
-        elif r < 0.96 and len(live) > 1:
+        elif r < 0.95 and len(live) > 1:
             ev.append(["disc", c])
             live.remove(c)
-            for n in [n for n, o in owned.items() if o == c]:
-                del owned[n]
-        elif r < 0.98 and nxt < 7:
+            for n in list(owned):
+                if c in owned[n]:
+                    owned[n].remove(c)
+                if not owned[n]:
+                    del owned[n]
+        elif r < 0.965 and nxt < 7:
             if rnd.random() < 0.5:
                 ev.append(["hello", nxt, "fd"])
                 fdcap.add(nxt)
@@ -308,11 +316,22 @@ def gen_scenario(rnd, n_events=None, fault_p=0.08):
             live.append(nxt)
             nxt += 1
         else:
-            free = [n for n in WK_NAMES if n not in owned]
-            if free:
-                n = rnd.choice(free)
+            k = rnd.random()
+            mine = [n for n in owned if c in owned[n]]
+            cand = [n for n in WK_NAMES if c not in owned.get(n, [])]
+            if k < 0.45 and mine:
+                n = rnd.choice(mine)                      # give a name up: the next in the queue takes over
+                ev.append(["release", c, n])
+                owned[n].remove(c)
+                if not owned[n]:
+                    del owned[n]
+            elif k < 0.5:
+                ev.append(["release", c, rnd.choice(WK_NAMES + ["w.none"])]) if not mine else None
+            elif cand:
+                n = rnd.choice(cand)                      # primary owner if free, else queued
                 ev.append(["own", c, n])
-                owned[n] = c
+                owned.setdefault(n, []).append(c)
+    ev = [e for e in ev if e is not None]
     return {"limit": limit, "events": ev}
 
 
@@ -367,7 +386,7 @@ def gen_hole_pairs():
 
 
 def gen_directed(rnd):
-    fam = rnd.choice(("pns", "dups", "limit", "peer", "eaves", "fault", "pools", "quoting", "holes", "holes", "fds", "fds"))
+    fam = rnd.choice(("pns", "dups", "limit", "peer", "eaves", "fault", "pools", "quoting", "holes", "holes", "fds", "fds", "owners", "owners", "index", "index"))
     ev = [["hello", 1], ["hello", 2], ["hello", 3]]
     limit = 512
     if fam == "pns":
@@ -436,6 +455,66 @@ def gen_directed(rnd):
         for dst in rnd.sample((1, 2, 3), 2):
             ev.append(["send", 4, rnd.choice((1, 4)), "/a", "a.b", "M", "{U%d}" % dst, add_fds_n(rnd, [["s", "x"]], rnd.choice((1, 1, 0)))])
         limit = 512
+    elif fam == "owners":
+        # sender= / destination= on a well-known name are resolved against the CURRENT primary owner when a message
+        # is dispatched: the rules stay, the owner changes (queue, ReleaseName, disconnect, re-acquisition)
+        name = rnd.choice(("w.a", "w.b"))
+        ev.append(["hello", 4])
+        ev.append(["own", 1, name])
+        ev.append(["own", 2, name])                       # queued
+        ev.append(["add", 3, "sender='%s'" % name + rnd.choice(("", ",type='signal'", ",member='M'"))])
+        ev.append(["add", 4, "eavesdrop='true',destination='%s'" % name])
+        if rnd.random() < 0.5:
+            ev.append(["add", 4, "sender='{U2}'"])
+        ev.append(["add", 3, "type='signal',sender='org.freedesktop.DBus',arg0='%s'" % name])
+
+        def probes():
+            out = []
+            for c in (1, 2, 4):
+                out.append(["send", c, 4, "/a", "a.b", "M", None, []])
+            out.append(["send", 3, 1, "/a", "a.b", "M", name, [["s", "x"]]])
+            return out
+        ev += probes()
+        steps = [["release", 1, name], ["own", 1, name], ["disc", 2], ["release", 2, name], ["own", 4, name], ["release", 4, name]]
+        rnd.shuffle(steps)
+        gone = set()
+        for s in steps[:rnd.choice((2, 3, 4))]:
+            if s[1] in gone:
+                continue
+            ev.append(s)
+            if s[0] == "disc":
+                gone.add(s[1])
+            ev += [p for p in probes() if p[1] not in gone]
+    elif fam == "index":
+        # the (type, interface) pools: last rule of an interface entry removed (the entry is collected) and the
+        # interface used again, the same interface under several types, a disconnect that empties some entries
+        ifs = ["a.b", "a.bc", "a.b.c"]
+        tys = [None, "signal", "method_call", "error"]
+        held = []
+        for _ in range(rnd.choice((5, 7, 9))):
+            c = rnd.choice((1, 2))
+            t_ = rnd.choice(tys)
+            i_ = rnd.choice(ifs + [None])
+            items = ([("type", t_)] if t_ else []) + ([("interface", i_)] if i_ else []) + ([("member", rnd.choice(MEMBERS))] if rnd.random() < 0.3 else [])
+            text = render(rnd, items)
+            ev.append(["add", c, text])
+            held.append((c, items))
+        for _ in range(3):
+            ev.append(["send", 3, 4, "/a", rnd.choice(ifs), rnd.choice(MEMBERS), None, []])
+        rnd.shuffle(held)
+        for c, items in held[:rnd.choice((2, 3, 4))]:
+            its = list(items)
+            rnd.shuffle(its)
+            ev.append(["rm", c, render(rnd, its)])
+            ev.append(["send", 3, 4, "/a", dict(items).get("interface", rnd.choice(ifs)), dict(items).get("member", "M"), None, []])
+        c, items = rnd.choice(held)
+        ev.append(["rm", c, render(rnd, items)])
+        ev.append(["add", c, render(rnd, items)])
+        ev.append(["disc", rnd.choice((1, 2))])
+        for i_ in ifs:
+            ev.append(["send", 3, 4, "/a", i_, "M", None, []])
+        ev.append(["add", 3, "interface='a.b'"])
+        ev.append(["send", 3, rnd.choice((1, 3)), "/a", "a.b", "M", "{U%d}" % rnd.choice((1, 2, 3)), []])
     elif fam == "dups":
         items = gen_items(rnd, fault_ok=False, eaves_ok=False)
         n = rnd.choice((2, 3))
